@@ -289,7 +289,7 @@ func runOneJob(l *sym.Loaded, job *Job, timeoutMs int, nValid int, seed int64) (
 		models = append(models, m)
 	}
 	for i, m := range models {
-		cr := concRun{id: fmt.Sprintf("%s#v%d", job.name(), i), model: m}
+		cr := concRun{id: fmt.Sprintf("%s:%s#v%d", job.Dir, job.name(), i), model: m}
 		it2 := sym.NewInterp(l.Prog, st, sol)
 		if err := it2.InitPackages(initPkgs); err != nil {
 			continue
